@@ -138,6 +138,12 @@ Lemma tl_map {A B} (f : A -> B) l : tl (map f l) = map f (tl l).
 Proof. destruct l; reflexivity. Qed.
 
 (* ------------------------------------------------------------------ refinement *)
+Fixpoint has_split (h : hist) : bool :=
+  match h with
+  | HEnd | HFold | HPar | HRFold => false
+  | HBack h' | HNext h' | HNth _ h' => has_split h'
+  | HSplit _ _ _ => true
+  end.
 Fixpoint has_back (h : hist) : bool :=
   match h with
   | HEnd | HFold | HPar => false
@@ -157,10 +163,13 @@ Section Refine.
     r_nth : forall k s, Inv s -> exists x s', i_nth I k s = Some (x, s') /\
              x = hd_error (ndrop k (abs s)) /\ abs s' = tl (ndrop k (abs s)) /\ Inv s';
     r_len : forall s, Inv s -> i_len I s = nlen (abs s);
+    r_fold : forall s, Inv s -> i_fold I s = Some (abs s);
+  }.
+  (* split_at k cuts the deque after k items; it panics exactly when k > len *)
+  Record refines_split : Prop := {
     r_split_ok : forall k s, Inv s -> k <= nlen (abs s) -> exists l r, i_split I k s = Some (l, r) /\
              abs l = ntake k (abs s) /\ abs r = ndrop k (abs s) /\ Inv l /\ Inv r;
     r_split_panic : forall k s, Inv s -> nlen (abs s) < k -> i_split I k s = None;
-    r_fold : forall s, Inv s -> i_fold I s = Some (abs s);
   }.
   Definition refines_back : Prop :=
     forall s x s', Inv s -> i_back I s = (x, s') ->
@@ -184,47 +193,84 @@ Section Refine.
 
   (* MAIN THEOREM: induction over arbitrary finite history trees *)
   Theorem history_refines_gen : refines_fwd ->
-    forall h s, Inv s -> (has_back h = false \/ refines_back) ->
+    forall h s, Inv s -> (has_back h = false \/ refines_back) -> (has_split h = false \/ refines_split) ->
     run_impl I h s = run_spec h (abs s).
   Proof.
-    intros RF. induction h as [|h IH|h IH|k h IH| | | |k a IHa b IHb]; intros s Hi Hb; cbn [run_impl run_spec].
+    intros RF. induction h as [|h IH|h IH|k h IH| | | |k a IHa b IHb]; intros s Hi Hb Hs; cbn [run_impl run_spec].
     - rewrite (r_len RF); auto.
     - destruct (i_next I s) as [x s'] eqn:E.
       destruct (r_next RF _ _ _ Hi E) as (Hx & Ha & Hi').
-      rewrite (IH s' Hi'); [|destruct Hb as [Hb|Hb]; [left; exact Hb|right; exact Hb]].
+      rewrite (IH s' Hi'); [|destruct Hb as [Hb|Hb]; [left; exact Hb|right; exact Hb]|exact Hs].
       rewrite (r_len RF _ Hi'), Ha.
       destruct (abs s) as [|y t]; cbn [hd_error tl] in *; subst x; reflexivity.
     - destruct Hb as [Hb|RB]; [cbn [has_back] in Hb; discriminate|].
       destruct (i_back I s) as [x s'] eqn:E.
       destruct (RB _ _ _ Hi E) as (Hx & Ha & Hi').
-      rewrite (IH s' Hi'); [|right; exact RB].
+      rewrite (IH s' Hi'); [|right; exact RB|exact Hs].
       rewrite (r_len RF _ Hi'), Ha.
       destruct (rev (abs s)) as [|y t]; cbn [hd_error tl] in *; subst x; cbn [rev].
       + reflexivity.
       + rewrite nlen_rev. reflexivity.
     - destruct (r_nth RF k s Hi) as (x & s' & E & Hx & Ha & Hi').
-      rewrite E, (IH s' Hi'); [|destruct Hb as [Hb|Hb]; [left; exact Hb|right; exact Hb]].
+      rewrite E, (IH s' Hi'); [|destruct Hb as [Hb|Hb]; [left; exact Hb|right; exact Hb]|exact Hs].
       rewrite (r_len RF _ Hi'), Ha, Hx. reflexivity.
     - rewrite (r_fold RF); auto.
     - destruct Hb as [Hb|RB]; [cbn [has_back] in Hb; discriminate|].
       rewrite (rdrain_refines RB); auto.
       rewrite (r_len RF _ Hi). unfold nlen. rewrite Nat2N.id. lia.
     - rewrite (r_fold RF); auto.
-    - destruct (k <=? nlen (abs s)) eqn:Ek.
+    - destruct Hs as [Hs|RS]; [cbn [has_split] in Hs; discriminate|].
+      destruct (k <=? nlen (abs s)) eqn:Ek.
       + apply N.leb_le in Ek.
-        destruct (r_split_ok RF k s Hi Ek) as (l & r & E & Hl & Hr & Il & Ir).
-        rewrite E, (IHa l Il), (IHb r Ir), Hl, Hr; [reflexivity| |].
+        destruct (r_split_ok RS k s Hi Ek) as (l & r & E & Hl & Hr & Il & Ir).
+        rewrite E, (IHa l Il), (IHb r Ir), Hl, Hr; [reflexivity| | | |]; try (right; exact RS).
         * destruct Hb as [Hb|Hb]; [left|right; exact Hb].
           cbn [has_back] in Hb. apply orb_false_iff in Hb. tauto.
         * destruct Hb as [Hb|Hb]; [left|right; exact Hb].
           cbn [has_back] in Hb. apply orb_false_iff in Hb. tauto.
-      + apply N.leb_gt in Ek. rewrite (r_split_panic RF k s Hi Ek). reflexivity.
+      + apply N.leb_gt in Ek. rewrite (r_split_panic RS k s Hi Ek). reflexivity.
   Qed.
 
-  Corollary history_refines : refines_fwd -> refines_back ->
+  Corollary history_refines : refines_fwd -> refines_split -> refines_back ->
     forall h s, Inv s -> run_impl I h s = run_spec h (abs s).
-  Proof. intros RF RB h s Hi. apply history_refines_gen; auto. Qed.
+  Proof. intros RF RS RB h s Hi. apply history_refines_gen; auto. Qed.
 End Refine.
+
+(* default nth / fold, derived from a next that pops the front *)
+Section Defaults.
+  Context {St A : Type} (next : St -> option A * St) (Inv : St -> Prop) (abs : St -> list A).
+  Hypothesis next_ok : forall s x s', Inv s -> next s = (x, s') ->
+    x = hd_error (abs s) /\ abs s' = tl (abs s) /\ Inv s'.
+
+  Lemma nth_default_refines : forall fuel k s, Inv s -> (length (abs s) < fuel)%nat ->
+    exists x s', nth_default next fuel k s = Some (x, s') /\
+      x = hd_error (ndrop k (abs s)) /\ abs s' = tl (ndrop k (abs s)) /\ Inv s'.
+  Proof.
+    induction fuel as [|f IH]; intros k s Hi Hl; [lia|].
+    cbn [nth_default]. destruct (k =? 0) eqn:Ek.
+    - apply N.eqb_eq in Ek. subst k. destruct (next s) as [x s'] eqn:E.
+      destruct (next_ok _ _ _ Hi E) as (Hx & Ha & Hi'). exists x, s'. rewrite ndrop_0. auto.
+    - apply N.eqb_neq in Ek. destruct (next s) as [x s'] eqn:E.
+      destruct (next_ok _ _ _ Hi E) as (Hx & Ha & Hi').
+      destruct (abs s) as [|y t] eqn:Eabs; cbn [hd_error tl] in *; subst x.
+      + exists None, s'. cbn [ndrop hd_error tl]. rewrite Ha. auto.
+      + destruct (IH (N.pred k) s' Hi') as (x & s2 & E2 & Hx2 & Ha2 & Hi2).
+        { rewrite Ha. cbn [length] in Hl. lia. }
+        assert (Hd : ndrop k (y :: t) = ndrop (N.pred k) t).
+        { replace k with (N.succ (N.pred k)) at 1 by lia. apply ndrop_succ. }
+        exists x, s2. rewrite E2, Hd, <- Ha. auto.
+  Qed.
+
+  Lemma fdrain_refines : forall fuel s, Inv s -> (length (abs s) < fuel)%nat ->
+    fdrain next fuel s = Some (abs s).
+  Proof.
+    induction fuel as [|f IH]; intros s Hi Hl; [lia|].
+    cbn [fdrain]. destruct (next s) as [x s'] eqn:E.
+    destruct (next_ok _ _ _ Hi E) as (Hx & Ha & Hi').
+    destruct (abs s) as [|y t] eqn:Eabs; cbn [hd_error tl] in *; subst x; [reflexivity|].
+    rewrite IH; [rewrite Ha; reflexivity|exact Hi'|rewrite Ha; cbn [length] in Hl; lia].
+  Qed.
+End Defaults.
 
 (* refinement is preserved when items are mapped (Lanes over LaneRanges over Offsets ...) *)
 Section MapRefine.
@@ -241,12 +287,17 @@ Section MapRefine.
       exists (omap f x), s'. cbn [map_iface i_nth]. rewrite E.
       rewrite ndrop_map, hd_error_map, tl_map, Hx, Ha. auto.
     - intros s Hi. cbn [map_iface i_len]. rewrite nlen_map. apply (r_len _ _ _ RF); auto.
+    - intros s Hi. cbn [map_iface i_fold]. rewrite (r_fold _ _ _ RF); auto.
+  Qed.
+
+  Lemma map_refines_split : refines_split I Inv abs -> refines_split (map_iface f I) Inv (fun s => map f (abs s)).
+  Proof.
+    intros RS. constructor.
     - intros k s Hi Hk. rewrite nlen_map in Hk.
-      destruct (r_split_ok _ _ _ RF k s Hi Hk) as (l & r & E & Hl & Hr & Il & Ir).
+      destruct (r_split_ok _ _ _ RS k s Hi Hk) as (l & r & E & Hl & Hr & Il & Ir).
       exists l, r. cbn [map_iface i_split]. rewrite ntake_map, ndrop_map, Hl, Hr. auto.
     - intros k s Hi Hk. rewrite nlen_map in Hk. cbn [map_iface i_split].
-      apply (r_split_panic _ _ _ RF); auto.
-    - intros s Hi. cbn [map_iface i_fold]. rewrite (r_fold _ _ _ RF); auto.
+      apply (r_split_panic _ _ _ RS); auto.
   Qed.
 
   Lemma map_refines_back : refines_back I Inv abs -> refines_back (map_iface f I) Inv (fun s => map f (abs s)).
